@@ -726,5 +726,8 @@ def run(ctx) -> None:
     # "under ... the algorithm named in its header": the model the gate hands out is the table entry of exactly the name asked for (no aliasing)
     from .c05 import r05_3
     ctx.guard_as("R01.12", r05_3)
+    # "every signature present is valid": an object that carries a `signatures` array is read - and verified - as the general syntax
+    from .common import syntax_dispatch
+    ctx.guard(syntax_dispatch, "R01.16", "rfc7515.json:extract_general_json", "rfc7515.json:extract_flattened_json", "signatures")
     ctx.assume("pyca/cryptography verify primitives reject every forged signature (unforgeability is trusted)")
     ctx.assume("receiver types as inferred by mypy; class-hierarchy analysis for dynamic dispatch")
